@@ -92,23 +92,23 @@ def haEval (div : Nat → Rat) : PropEval := fun votes n prev caps =>
 /-- `QuotaDistributor('hare').evaluate(votes, n, prev_gains)` (proportional.py L221-273) with
     `accept_equal=True`, `on_overaward='error'`, no `max_seats`:  whole Hare quotas beyond the previous gains.
     `selected` holds only positive additions.  The cap-overshoot branch (L237-257) needs
-    `int(v/q) > n_seats`, impossible for the Hare quota `q = total/n`; the model answers `Unmodelled` there. -/
+    `int(v/q) > n_seats`, impossible for the Hare quota `q = total/n`; the model answers `Unmodelled` there.
+    `hareStep` is the body of the `for candidate, n_votes in votes.items()` loop. -/
+def hareStep (q : Rat) (n : Nat) (prev : Seats) (acc : Except Err Seats) (p : Cand × Rat) : Except Err Seats := do
+  let sel ← acc
+  if q < p.2 ∨ p.2 = q then
+    if q = 0 then .error zeroDiv else
+    let whole : Int := Py.pyInt (p.2 / q)
+    let add : Int := whole - (natLookup prev p.1 0 : Nat)
+    if 0 < add then
+      if (n : Int) < whole then .error unmodelled
+      else pure (sel ++ [(p.1, add.toNat)])
+    else pure sel
+  else pure sel
+
 def hareQuotaSeats (votes : Votes) (n : Nat) (prev : Seats) : Except Err Seats :=
   if n = 0 then .error zeroDiv else
-  let total := sumVals votes
-  let q : Rat := total / (n : Rat)
-  let step (acc : Except Err Seats) (p : Cand × Rat) : Except Err Seats := do
-    let sel ← acc
-    if q < p.2 ∨ p.2 = q then
-      if q = 0 then .error zeroDiv else
-      let whole : Int := Py.pyInt (p.2 / q)
-      let add : Int := whole - (natLookup prev p.1 0 : Nat)
-      if 0 < add then
-        if (n : Int) < whole then .error unmodelled
-        else pure (sel ++ [(p.1, add.toNat)])
-      else pure sel
-    else pure sel
-  votes.foldl step (.ok [])
+  votes.foldl (hareStep (sumVals votes / (n : Rat)) n prev) (.ok [])
 
 /-- `quota_elected[candidate] += 1` / `= 1` for one entry of `best` (proportional.py L385-389) -/
 def incSlot (acc : Dist) : Slot → Dist
